@@ -3441,11 +3441,17 @@ class FuncRemove(ValueFunc):
         lst = args.get("lst")
         element = args.get("element")
 
-        if lst.isList() or lst.isSet() or lst.isMap():
-            lst.removeItem(element)
+        if lst.isList():
+            if lst.findItem(element) != -1:
+                lst.removeItem(element)
+            return lst
+        elif lst.isSet() or lst.isMap():
+            if lst.hasItem(element):
+                lst.removeItem(element)
             return lst
         elif lst.isObject():
-            del lst.value[element.value]
+            if element.isString() and lst.hasItem(element.value):
+                lst.removeItem(element.value)
             return lst
 
         raise CklRuntimeError(
